@@ -187,14 +187,14 @@ func TestTickerAndTimer(t *testing.T) {
 		tk := NewTicker(10 * time.Millisecond)
 		defer tk.Stop()
 		for i := 0; i < 5; i++ {
-			Recv(tk.C)
+			tk.C.Recv()
 			ticks = append(ticks, VNow())
 			if i == 1 {
 				Sleep(25 * time.Millisecond) // a slow receiver: one tick is buffered, later ones are dropped
 			}
 		}
 		tm := NewTimer(time.Second)
-		Recv(tm.C)
+		tm.C.Recv()
 		fired = VNow()
 	})
 	if w.Stop != StopNone || len(ticks) != 5 {
@@ -238,5 +238,96 @@ func TestGoCallEvaluatesArgumentsAtTheGoStatement(t *testing.T) {
 	}
 	if sum != 0+10+20+3*2 {
 		t.Fatalf("got %v", got)
+	}
+}
+
+func TestChannels(t *testing.T) {
+	// unbuffered rendezvous, buffered queue, close, select with a timer and with default
+	unbuf := MakeChanInWorld[int](0)
+	buf := MakeChanInWorld[int](2)
+	done := MakeChanInWorld[struct{}](0)
+	var got []int
+	var order []string
+	var omu Mutex
+	note := func(s string) {
+		omu.Lock()
+		order = append(order, s)
+		omu.Unlock()
+	}
+	w := runWorld(11, Config{Policy: Adversarial, SwitchProb: 300, Quantum: 40},
+		func() { // producer
+			for i := 0; i < 5; i++ {
+				unbuf.Send(i)
+				Y(1)
+			}
+			Close(unbuf)
+			buf.Send(100)
+			buf.Send(200)
+			note("buffered-sent")
+			buf.Send(300) // blocks until the consumer takes one
+			note("third-sent")
+			Close(done)
+		},
+		func() { // consumer
+			for {
+				v, ok := unbuf.Recv2()
+				if !ok {
+					break
+				}
+				got = append(got, v)
+			}
+			Sleep(time.Millisecond)
+			note("consumer-woke")
+			got = append(got, buf.Recv(), buf.Recv(), buf.Recv())
+			// select: nothing ready, default
+			if i := Select(true, OnRecv(buf)); i != -1 {
+				t.Errorf("select default: got %d", i)
+			}
+			// select: timer vs closed channel
+			tm := NewTimer(time.Hour)
+			c0, c1 := OnRecv(tm.C), OnRecv(done)
+			if i := Select(false, c0, c1); i != 1 {
+				t.Errorf("select: got case %d, want the closed channel", i)
+			}
+			// select: only a timer
+			t0 := VNow()
+			c2 := OnRecv(After(5 * time.Millisecond))
+			if i := Select(false, c2); i != 0 || VNow()-t0 < int64(5*time.Millisecond) {
+				t.Errorf("select timer: case %d after %d ns", i, VNow()-t0)
+			}
+		})
+	if w.Stop != StopNone {
+		t.Fatalf("stop=%d", w.Stop)
+	}
+	want := []int{0, 1, 2, 3, 4, 100, 200, 300}
+	if fmt.Sprint(got) != fmt.Sprint(want) {
+		t.Fatalf("got %v want %v", got, want)
+	}
+	if fmt.Sprint(order) != "[buffered-sent consumer-woke third-sent]" {
+		t.Fatalf("order %v", order)
+	}
+}
+
+func TestSelectSendAndStaleTimer(t *testing.T) {
+	c := MakeChanInWorld[int](0)
+	var recv int
+	var slept int64
+	w := runWorld(12, Config{Policy: Fair, Quantum: 7},
+		func() {
+			// a select that waits for a timer and a send; the receiver comes first, the timer must be cancelled
+			tm := NewTimer(50 * time.Millisecond)
+			if i := Select(false, OnRecv(tm.C), OnSend(c, 42)); i != 1 {
+				t.Errorf("select: case %d", i)
+			}
+			t0 := VNow()
+			Sleep(200 * time.Millisecond) // must not be cut short by the cancelled 50 ms timer
+			slept = VNow() - t0
+		},
+		func() {
+			Sleep(10 * time.Millisecond)
+			recv = c.Recv()
+		})
+	if w.Stop != StopNone || recv != 42 || slept < int64(200*time.Millisecond) {
+		t.Fatalf("stop=%d recv=%d slept=%d", w.Stop, recv, slept)
 	}
 }
